@@ -18,6 +18,8 @@ def opts(rng):
     if rng.random() < 0.1:
         o['shuffle'] = True
         o['shuffle_seed'] = rng.randrange(1000)
+    if rng.random() < 0.15:
+        o['color'] = True
     return o
 
 
@@ -40,7 +42,7 @@ def run(chk, tier, seed, replay=None):
     if tier == 'quick':
         corecheck.run_mc(chk, ['Runner_design', 'Runner_probe'],
                          expect_violation=['Runner_probe'])
-        n1, n2 = 170, 110
+        n1, n2 = 150, 90
     else:
         corecheck.run_mc(chk, ['Runner_design', 'Runner_deep', 'Runner_deep2',
                                'Runner_hooks', 'Runner_live', 'Runner_probe'],
@@ -57,6 +59,16 @@ def run(chk, tier, seed, replay=None):
     g4 = [g for g in graphs if g['n'] >= 1]
     cases = corecheck.gen_cases(rng, g4, n1, prof_a, 'a')
     cases += corecheck.gen_cases(rng, g4, n2, prof_b, 'b')
+    # passing tests only, layer tearDowns fail often, mostly with -x: the run goes on
+    # from layer to layer while tear_down_unneeded meets errors half-way
+    def opts_c(r):
+        o = opts(r)
+        o.pop('j', None)
+        o['stop'] = r.random() < 0.7
+        return o
+    prof_c = {'kinds': 'mixed', 'hooks': 'all', 'faults': (0.0, 0.3, 0.08),
+              'outcomes': ['pass'], 'opts': opts_c, 'permute_names': True, 'big': 0.3}
+    cases += corecheck.gen_cases(rng, g4, 50 if tier == 'quick' else 600, prof_c, 'c')
     for c in cases[:3]:
         chk.sample({'world': c['world'], 'options': c['o'], 'mode': c['mode']})
     corecheck.run_cases(chk, FAM, cases)
